@@ -189,13 +189,14 @@ pub mod fs {
     }
 
     /// numbering and fault injection for metadata queries that are not part of the operation log
-    fn meta_fault() -> Option<io::Error> {
+    fn meta_fault(path: &Path) -> Option<io::Error> {
         let mut guard = ctl::STATE.lock().unwrap_or_else(|e| e.into_inner());
         let state = guard.as_mut()?;
         let index = state.metas;
         state.metas += 1;
         if state.config.meta_faults.contains(&index) {
-            state.log.push(format!("meta {} err", index));
+            use std::os::unix::ffi::OsStrExt;
+            state.log.push(format!("meta {} err {}", index, ctl::hex(path.as_os_str().as_bytes())));
             return Some(injected(index));
         }
         None
@@ -203,7 +204,7 @@ pub mod fs {
 
     /// metadata of a directory-walk entry
     pub fn entry_metadata(entry: &walkdir::DirEntry) -> io::Result<std::fs::Metadata> {
-        if let Some(error) = meta_fault() {
+        if let Some(error) = meta_fault(entry.path()) {
             return Err(error);
         }
         entry.metadata().map_err(io::Error::from)
@@ -272,7 +273,7 @@ pub mod fs {
         }
 
         pub fn metadata(&self) -> io::Result<std::fs::Metadata> {
-            if let Some(error) = meta_fault() {
+            if let Some(error) = meta_fault(&self.path) {
                 return Err(error);
             }
             self.inner.metadata()
